@@ -130,3 +130,66 @@ def run_binding_isolated(rep, work):
         for sig, text, path in r[4]:
             rep.violation(sig, text, path=path)
         rep.extra.update(r[5])
+
+
+def _arity_call(case):
+    """one _set_property call with the given arities; "accepted" | "ValueError" | other exception class"""
+    build.install()
+    from traits.ctrait import CTrait
+    gn, sn, vn, hv = case
+    t = CTrait(0)
+    try:
+        t._set_property(fn, gn, fn, sn, fn if hv else None, vn)
+    except ValueError:
+        return "ValueError"
+    except Exception as e:
+        return type(e).__name__
+    # use what was accepted: the accessors are dispatched through the tables
+    from traits.api import HasTraits
+    o = HasTraits()
+    o.add_trait("p", t)
+    try:
+        o.p
+        o.p = 1
+    except Exception:
+        pass
+    t.__getstate__()
+    return "accepted"
+
+
+def _arity_all(cases):
+    return [_arity_call(c) for c in cases]
+
+
+def run_arity(rep, work):
+    """CTraitArity.tla: every (get_n, set_n, validate_n, has validator) call on the real CTrait, in forked children"""
+    from ..core import run_isolated
+    dump = os.path.join(work, "arity")
+    res = tlc.run_tlc("CTraitArity", "CTraitArity.cfg", dump=dump, timeout=600, workers=1, heap="2g")
+    rep.add_tlc("CTraitArity", res)
+    cases = []
+    for stt in tlaval.iter_dump_states(dump + ".dump"):
+        c = stt["c"]
+        cases.append(((int(c[0]), int(c[1]), int(c[2]), bool(c[3])), bool(stt["acc"])))
+    os.unlink(dump + ".dump")
+    if not cases:
+        raise MachineryError("no arity cases")
+    status, rs = run_isolated(_arity_all, [c for c, _ in cases])
+    if status == "ok":
+        results = [("ok", r) for r in rs]
+    elif status == "crash":
+        results = [run_isolated(_arity_call, c) for c, _ in cases]
+    else:
+        raise MachineryError("arity cases: %s" % rs)
+    for (c, acc), (status, r) in zip(cases, results):
+        case = {"get_n": c[0], "set_n": c[1], "validate_n": c[2], "validator": c[3], "specification_accepts": acc}
+        if status == "crash":
+            rep.violation("C18:crash:property-arity", "the interpreter crashed (%s) on _set_property with arities %r" % (r, c), case)
+        elif status != "ok":
+            raise MachineryError("arity case %r: %s" % (c, r))
+        elif (r == "accepted") != acc or (not acc and r != "ValueError"):
+            rep.violation("C18:property-arity-guard", "_set_property with arities get=%d set=%d validate=%d%s: %s, the "
+                          "specification's guard %s" % (c[0], c[1], c[2], "" if c[3] else " (no validator)", r,
+                                                        "accepts" if acc else "refuses (ValueError)"), case)
+    rep.case(len(cases))
+    rep.extra["property_arity_cases"] = len(cases)
